@@ -201,6 +201,19 @@ def run(rep: Report, tier: str) -> None:
                                             f"VTL's cast truncates (3, -1; Cast.cast_scalar uses int()); the value must pass through TRUNC"))
                     if not needs_macro and not used and fmt == "vtl" and src_spelling == cls_name[a] and sql == "CAST(X AS T)":
                         fallthrough.append(f"{rev[a]}->{rev[b]}")
+    # R09.7 (cont.): the source type of a COMPUTED operand (a BinOp, a function call, a scalar variable) is not known to the transpiler (None): it may be
+    # a non-integral number, so the integer cast must truncate there too
+    for unknown in (None, "", "unknown"):
+        it = Interp(P, externals={"_match_plain_sql_string_literal": lambda e: None, "_try_normalize_time_period": lambda e: None})
+        try:
+            sql_u = it.call(fce, {"self": ExternalObj({"time_period_output_format": "vtl"}), "expr": "X", "duckdb_type": "BIGINT", "target_type_str": "Integer", "mask": None, "source_type_str": unknown})
+        except Raised as r:
+            raise AnalysisError(f"_cast_expr raised {r.exc} for <computed expression> -> Integer")
+        rep.instance("R09.7", f"computed-to-integer/{unknown!r}", nontrivial=True, sample={"source_type": unknown, "sql": sql_u})
+        if isinstance(sql_u, str) and not re.search(r"\bTRUNC\s*\(|\bFLOOR\s*\(", sql_u, re.I):
+            rep.add(Finding("R09.7", f"R09.7/computed-to-integer/{unknown!r}", fce.module.rel, fce.node.lineno, fce.qualname,
+                            f"cast(<computed expression>, integer) - the operand's type is not known to the transpiler (source type {unknown!r}) - is emitted as {sql_u!r}: the operand may be a "
+                            f"non-integral number (`cast(Me_1 * 1.0, integer)`, `cast(7 / 2, integer)`), and DuckDB's CAST rounds where VTL truncates (4 instead of 3)"))
     rep.note("R09.3 (information) accepted pairs served by the generic CAST(expr AS type): " + ", ".join(sorted(set(fallthrough))))
     rep.analysed = {"type_pairs": len(accept), "accepted_pairs": sum(accept.values()), "macros_defined": len(macros)}
     # ---- R09.4: the Time -> Time_Period conversion macro writes ISO weeks with the ISO year (rule shared with C08) ----
